@@ -1,3 +1,9 @@
--- This module serves as the root of the `DefraModel` library.
--- Import modules here that should be built as part of the library.
-import DefraModel.Basic
+-- Root of the `DefraModel` library: every model, proof and property module.
+import DefraModel.Bytes
+import DefraModel.Encoding.Int
+import DefraModel.Encoding.Scalars
+import DefraModel.Encoding.FieldValue
+import DefraModel.Proofs.BytesLemmas
+import DefraModel.Proofs.IntOrder
+import DefraModel.Proofs.ScalarOrder
+import DefraModel.Props.C17
